@@ -275,6 +275,25 @@ func c11GenCase(t *rapid.T) c11Case {
 		return c
 	}
 	root := gen("root", 0, "root")
+	// conditions on the global switch are not drawn for the dependencies of an aliased dependency at depth two: Helm
+	// looks their paths up before that alias is applied (the recorded finding about aliased nested dependencies), and
+	// the globals handed down to the aliased chart's section are as invisible there as its defaults are
+	var noGlobalCond func(x *c11Chart, depth int)
+	noGlobalCond = func(x *c11Chart, depth int) {
+		for _, d := range x.Deps {
+			if depth >= 2 && x.Alias != "" {
+				var keep []string
+				for _, p := range strings.Split(d.Cond, ",") {
+					if p != "global.on" {
+						keep = append(keep, p)
+					}
+				}
+				d.Cond = strings.Join(keep, ",")
+			}
+			noGlobalCond(d, depth+1)
+		}
+	}
+	noGlobalCond(root, 0)
 	if tg := c11GenTags(t, "rootTags"); len(tg) > 0 && rapid.Bool().Draw(t, "rootHasTags") {
 		root.Defaults["tags"] = tg
 	}
